@@ -1,18 +1,24 @@
 // C12: RPC serialization - lossless round trip under every fragmentation; hostile bytes never lead outside the input.
 // Real code: rpc/serialize.h (SerializerIOV::serialize, DeserializerIOV::deserialize, ArchiveBase::process_field*,
-// _FilterAlignedFields, CheckedMessage::add/validate_checksum, Crc32Hasher, sorted_map), common/iovector.h (iovector /
-// IOVectorEntity: push_back, extract_back<T>, extract_front_continuous incl. the copying path, extract_front(bytes, view*),
-// do_malloc, IOVAllocation_), common/iovector.cpp (included textually: do_extract_front/back, sum, ...).
+// _FilterAlignedFields, CheckedMessage::add/validate_checksum, Crc32Hasher, iovec_array, sorted_map begin/end/find/Iterator,
+// slice::anchor, base_buffer_cmp), common/iovector.h (iovector / IOVectorEntity: push_back, extract_back<T>,
+// extract_front_continuous incl. the copying path, extract_front(bytes, view*), do_malloc, IOVAllocation_),
+// common/iovector.cpp (included textually: do_extract_front/back, sum, ...).
 //
 // Byte stream given to deserialize = PAY[0..PLEN) (the variable-length payload) followed by the sizeof(MT) body bytes.  It is cut
 // at symbolic points into NPF+1 pieces (NPF = 0..2 elements in front of the last one; a piece may be empty = zero-length element).
 // Every piece is stored END-ALIGNED in its own static object, so reading one byte past a piece is an out-of-bounds access:
-//   FRAG 0 ("body contiguous"): all cuts inside the payload; the last piece is the typed object LAST {pre[8]; MT body} and
+//   FRAG 0 ("body contiguous"): all cuts inside the payload; the last piece is the typed object LAST {pre[]; MT body} and
 //                               consists of the tail of the payload followed by the body.
 //   FRAG 1 ("body straddles"):  the last cut is strictly inside the body, so the body is reassembled by the copying path of
 //                               extract_back_continuous into a block obtained from the allocator.
 // The iovector's allocator is a pair of harness callbacks handing out exact-size (end-aligned) blocks from static pools; a
 // block of sizeof(MT) bytes is the typed object BODYBLK.  With ALLOCFAIL the allocator may fail symbolically.
+// Entry points: harness_roundtrip / harness_hostile (one message shape per compilation, -DMSG=k), harness_sortedmap (MSG 5).
+// Oracles: round trip = field-wise equality with the original; hostile = accepted iff every length fits the remaining payload
+// (and the checksum matches), every accepted field denotes exactly its bytes of the stream (every byte is read); checked
+// messages = which bytes are hashed, in which order, and accept iff stored == final hash value.
+// native_*.cpp in this directory are the ASan / native confirmations of the findings (not part of the solver run).
 #include "verif_h.h"
 #include "nolog.h"
 #include <stdlib.h>
@@ -177,8 +183,8 @@ static inline uint8_t pay(size_t i) { return PAY[i < PMAX ? i : PMAX]; }
 static inline uint8_t stream(size_t i) { return i < PLEN ? pay(i) : BB[(i - PLEN) < SZ ? (i - PLEN) : 0]; }
 #endif
 
-// word-wise copy of the fixed body (CBMC's built-in constant-size memcpy model mis-copied structs holding pointers: spurious
-// counterexample, not reproducible natively)
+// word-wise copy of the fixed body (with the solver's built-in constant-size memcpy model a struct holding pointers came out
+// garbled: spurious counterexample, not reproducible natively)
 static inline void copy_body(void* d, const void* s) { UNROLL for (size_t i = 0; i < SZ / 8; i++) ((uint64_t*)d)[i] = ((const uint64_t*)s)[i]; static_assert(SZ % 8 == 0, "body is a multiple of 8 bytes"); }
 static iovector* build_input(const void* body)
 {
@@ -488,7 +494,9 @@ void harness_hostile()
         if (vs == 0) WITNESS("hostile: accepted with an empty iovec_array");
 #ifdef ACCESSORS
         // the library's accessor for a fixed_buffer<T> promises a T
-        accessor_sink = *(const volatile uint32_t*)t->fx.get();
+        // (after the repair in /repo: get() yields a T only when the field holds exactly one T, nullptr otherwise)
+        { const uint32_t* g = t->fx.get();
+          if (g) { CHECK(fxl == sizeof(uint32_t), "fixed_buffer<T>::get() hands out a T only for a field of sizeof(T) bytes"); accessor_sink = *(const volatile uint32_t*)g; } }
         if (fxl == 0) WITNESS("fixed_buffer of length 0 accepted");
 #endif
     } else {
@@ -571,7 +579,7 @@ void harness_sortedmap()
 #if SM_MODE == 0
     if (!wellformed) WITNESS("sorted_map index entry pointing outside the base buffer");
 #endif
-#if SM_MODE != 0 && defined(SM_FIND)   /* not enabled: the solver reports a counterexample for this check that does not reproduce natively (unresolved) */
+#if SM_MODE != 0 && defined(SM_FIND)
     {   // lookup: keys are NUL-terminated strings as sorted_map_factory stores them (length >= 1 including the NUL)
         static char KEY[2]; KEY[0] = (char)nondet_u8(); KEY[1] = 0;
         string key; key.assign((const void*)KEY, 2);
